@@ -1,7 +1,7 @@
 (* Entry.v — single extracted entry point [run]: request = VList [VStr name; arg].
    All marshalling is done here in Gallina so that ocaml/driver.ml stays generic. *)
 From Coq Require Import ZArith List Bool String Ascii.
-From Verif Require Import PyStr Normalize NormalizeGen Util UtilGen Toc TocGen Footnote FootnoteGen Cli CliGen StoreGen Rx UnicodeGen RxGen Scanner RefLinks Tmpl HtmlRender TmplGen CodeSpan RxSub RxCost Inline InlineGen Block BlockGen Doc HtmlDoc.
+From Verif Require Import PyStr Normalize NormalizeGen Util UtilGen Toc TocGen Footnote FootnoteGen Cli CliGen StoreGen Rx UnicodeGen RxGen Scanner RefLinks Tmpl HtmlRender TmplGen CodeSpan RxSub RxCost Inline InlineGen Block BlockGen Doc HtmlDoc Table MdRender MdDoc.
 Import ListNotations.
 Open Scope Z_scope.
 
@@ -235,7 +235,36 @@ Definition html_x (px esc hw : bool) (s : str) : res str :=
   do ast <- doc_parse_x px hw s; Ok (html_doc (html_env esc) escape_ops ext_template ast).
 Definition core_html (esc hw : bool) (s : str) : res str := html_x false esc hw s.
 
+(* create_markdown(renderer='markdown', hard_wrap=hw)(s): the core configuration with the Markdown renderer *)
+Definition md_x (hw : bool) (s : str) : res str :=
+  match block_cfg, inline_cfg_x false hw [] with
+  | Some CB, Some d =>
+    do (ast, rf) <- doc_parse_rf CB (fun rf => inline_cfg_or false hw rf d) (run_ops parse_norm_ops) s;
+    Ok (md_doc U rx_renderers_markdown__quote_end_re rx_util__strip_end_re ast rf)
+  | _, _ => Exn
+  end.
+
+(* the table plugin on the regenerated patterns *)
+Definition table_cfg : tcfg :=
+  {| t_uni := U; t_table := rx_plugins_table__TABLE_PATTERN; t_nptable := rx_plugins_table__NP_TABLE_PATTERN;
+     t_table_cell := rx_plugins_table__TABLE_CELL; t_cell_split := rx_plugins_table__CELL_SPLIT;
+     t_center := rx_plugins_table__ALIGN_CENTER; t_left := rx_plugins_table__ALIGN_LEFT; t_right := rx_plugins_table__ALIGN_RIGHT;
+     t_is_ws := is_ws T |}.
+Definition enc_align (a : align) : pval :=
+  match a with ACenter => VStr (z_of_string "center") | ALeft => VStr (z_of_string "left") | ARight => VStr (z_of_string "right") | ANoAlign => VNone end.
+Definition enc_cell (c : cell) : pval := VList [VStr (c_text c); enc_align (c_align c); VBool (c_head c)].
+
 Definition run_named (name : str) (arg : pval) : pval :=
+  if is_name name "table" then
+    match arg with
+    | VList [VStr s; VBool np] =>
+      match table_at table_cfg np s with
+      | None => VNone
+      | Some None => VStr (z_of_string "reject")
+      | Some (Some (h, rows, pos)) => VList [VList (map enc_cell h); VList (map (fun r => VList (map enc_cell r)) rows); vnat pos]
+      end
+    | _ => VErr "arg" end
+  else
   if is_name name "norm" then
     match arg with VStr s => VStr (run_ops parse_norm_ops s) | _ => VErr "arg" end
   else if is_name name "call_none" then VStr (run_ops parse_norm_ops (call_input call_none_value None))
@@ -410,6 +439,15 @@ Definition run_named (name : str) (arg : pval) : pval :=
     | VList [VStr s; VBool hw; VBool px] =>
       match doc_parse_x px hw s with
       | Ok ns => VList (map enc_node ns)
+      | Exn => VErr "exception"
+      | Fuel => VErr "fuel"
+      end
+    | _ => VErr "arg" end
+  else if is_name name "md" then
+    match arg with
+    | VList [VStr s; VBool hw] =>
+      match md_x hw s with
+      | Ok out => VStr out
       | Exn => VErr "exception"
       | Fuel => VErr "fuel"
       end
